@@ -17,10 +17,35 @@ def ekS : EK → String
 def excOf (j : Json) : Option Exc :=
   if jIsNull j then none else some { kind := ekOf (jS (jAt j 0)), id := jN (jAt j 1), cause := jOptN (jAt j 2) }
 
+/-- `["ev", p]` | `["raise", EXC]` -/
+def actOf (j : Json) : Act :=
+  match jTag j with
+  | "raise" => match excOf (jAt j 1) with | some e => .raise e | none => .ev 0
+  | _ => .ev (jN (jAt j 1))
+
+def actsOf (j : Json) : List Act := if jIsNull j then [] else (jL j).map actOf
+
+def hclassOf : String → HClass
+  | "Exception" => .exception | "BaseException" => .baseException | "RuntimeError" => .runtimeError
+  | "bare" => .baseException | "StopIteration" => .stopIteration | "GeneratorExit" => .generatorExit | "CancelledError" => .cancelled
+  | _ => .noMatch
+
+/-- `{"rest":[A…], "handlers":[[class, [A…], reraise]…], "else":[A…]|null, "fin":[A…]|null, "finExc":[A…]|null}` -/
+def frameOf (j : Json) : Frame :=
+  { rest := actsOf (jF j "rest"),
+    handlers := (if jIsNull (jF j "handlers") then [] else jL (jF j "handlers")).map
+      (fun h => { cls := hclassOf (jS (jAt h 0)), body := actsOf (jAt h 1), reraise := jB (jAt h 2) }),
+    orelse := actsOf (jF j "else"), fin := actsOf (jF j "fin"), finExc := actsOf (jF j "finExc") }
+
+/-- `{"frames":[F…] (innermost first), "trail":[A…]}`; absent: a bare yield -/
+def bodyShapeOf (j : Json) : GenBody :=
+  if jIsNull j then {} else { frames := (jL (jF j "frames")).map frameOf, trail := actsOf (jF j "trail") }
+
 def genOf (j : Json) : UserGen :=
   { tag := jN (jF j "tag"), setupExc := excOf (jF j "setup"), yields := jN (jF j "yields"),
     cleanupExc := excOf (jF j "cleanup"), value := jN (jF j "value"),
-    returns := match jTag (jF j "returns") with | "truthy" => .truthy | "falsy" => .falsy | _ => .none }
+    returns := match jTag (jF j "returns") with | "truthy" => .truthy | "falsy" => .falsy | _ => .none,
+    body := bodyShapeOf (jF j "body") }
 
 def bodyOf (j : Json) : BodyOut :=
   match jTag j with
@@ -51,6 +76,7 @@ def evJ : Ev → Json
   | .body n => jArr [jStr "body", jNat n]
   | .cleanup t => jArr [jStr "cleanup", jNat t]
   | .extra t => jArr [jStr "extra", jNat t]
+  | .piece t p => jArr [jStr "piece", jNat t, jNat p]
 
 def finJ : Final → Json
   | .normal => jArr [jStr "normal"]
@@ -84,7 +110,7 @@ def wrapS : Wrap → String
 
 /-- cases:
     `{"kind":"prog","mode":…,"prog":P}` → model run, spec (null outside the documented form), the two guards;
-    `{"kind":"deco","mode":…,"fn":…,"unwrapped":…|absent,"hasName":b}` → decoration outcome, and whether the property demands acceptance;
+    `{"kind":"deco","mode":…,"fn":…,"unwrapped":…|absent,"hasName":b,"opt":0…3|absent}` → decoration outcome, and whether the property demands acceptance;
     `{"kind":"hist","mode":…,"ops":[["enter",G,ARGS] | ["exit",i,BODYOUT]…]}` → per operation journal and outcome of the history
     machine over one manager, and of the per-use try/finally specification (null outside the documented form) -/
 def handle (c : Json) : Json :=
@@ -92,7 +118,9 @@ def handle (c : Json) : Json :=
   if jS (jF c "kind") == "deco" then
     let k := kindOf (jS (jF c "fn"))
     let uk := if jIsNull (jF c "unwrapped") then k else kindOf (jS (jF c "unwrapped"))
-    let d := match decorate m k uk (jB (jF c "hasName")) with
+    -- "opt": 0 / absent = the default interpreter mode; 1, 2, 3 = python -O, -OO, PYTHONOPTIMIZE=1
+    let opt := !jIsNull (jF c "opt") && jN (jF c "opt") != 0
+    let d := match decorate m k uk (jB (jF c "hasName")) opt with
       | .rejected cls => jArr [jStr "rejected", jStr cls]
       | .manager w => jArr [jStr "manager", jStr (wrapS w)]
     mkObj [("model", d), ("spec", mkObj [("mustAccept", jBool (mustAccept m k)), ("via", jStr (wrapS (expectedWrap m)))])]
